@@ -79,9 +79,42 @@ def check_requires(b, sim, sig):
                     'bounded.logic_drv:run_case', sig, function='kyupy.sim.SimOps.__init__')
 
 
+def apply_history(c, hist):
+    """in-place edits after the circuit has been observed: a circuit is whatever its nodes / ports / kinds say *now*"""
+    for step in hist or ():
+        if step[0] == 'observe':
+            _ = len(c.s_nodes), len(c.io_nodes), len(c.nodes), len(c.lines)
+            try:
+                _ = c.stats
+            except Exception:  # noqa
+                pass
+        elif step[0] == 'swapio':
+            i, j = step[1], step[2]
+            c.io_nodes[i], c.io_nodes[j] = c.io_nodes[j], c.io_nodes[i]
+        elif step[0] == 'retype':
+            c.nodes[step[1]].kind = step[2]
+    return c
+
+
+def edit_history(rng, c):
+    """-> list of steps (observe first) that keep the numbers of nodes, lines and ports, or None if the circuit offers none"""
+    hist = [('observe',)]
+    io = {id(n) for n in c.io_nodes}
+    if len(c.io_nodes) >= 2 and rng.random() < 0.6:
+        i, j = rng.sample(range(len(c.io_nodes)), 2)
+        hist.append(('swapio', i, j))
+    cand = [n for n in c.nodes if id(n) not in io and n.kind != '__fork__' and len(n.outs) <= 1 and len(n.ins) == 1 and n.ins[0] is not None
+            and 'dff' not in n.kind.lower() and 'latch' not in n.kind.lower()]        # cell -> state element only (the other way can close a combinational loop)
+    if cand and (len(hist) == 1 or rng.random() < 0.7):
+        n = rng.choice(cand)
+        k = n.kind.lower()
+        hist.append(('retype', n.index, rng.choice(['DFF', 'LATCH'])))
+    return hist if len(hist) > 1 else None
+
+
 def run_case(args):
-    """replay: args = {'desc', 'm', 'stim', 'opts', 'cycles', 'inject'}"""
-    c = G.build(args['desc'])
+    """replay: args = {'desc', 'm', 'stim', 'opts', 'cycles', 'inject', 'history'}"""
+    c = apply_history(G.build(args['desc']), args.get('history'))
     stim = np.array(args['stim'], dtype=np.int64)
     r = compare(c, args['m'], stim, args.get('opts', {}), args.get('cycles', 0), args.get('inject'))
     return {'reproduced': bool(r), 'mismatches': r[:5]}
@@ -177,7 +210,7 @@ def logic_part(pid, ms, tier, seed, with_cycles=False, options=({},)):
     b = BoundedPart(f'{pid}-circuits-vs-netlist-oracle', ['kyupy.logic_sim.LogicSim (s_to_c, c_prop, c_to_s, cycle)', 'kyupy.sim.SimOps.__init__'],
                     'every 1-gate circuit over all primitive kind names x all subsets of unconnected pins, 30 two-gate reconvergent chains (exhaustive family), '
                     f'plus seeded random circuits (<= {14 if tier == "quick" else 40} gates, forks, direct lines, DFF Q/QN, latches, unconnected pins/outputs, shuffled ports); '
-                    'stimuli random over the logic alphabet, batch sizes 1..17; distinct = distinct (circuit structure, m, options); non-trivial = circuit has >= 1 gate and >= 1 captured signal',
+                    'each seeded circuit also after an observation (s_nodes, stats read) followed by in-place edits that keep all counts (two ports swapped, a one-input cell retyped to DFF/LATCH); stimuli random over the logic alphabet, batch sizes 1..17; distinct = distinct (circuit structure, m, options); non-trivial = circuit has >= 1 gate and >= 1 captured signal',
                     f'circuits: exhaustive-small family + {120 if tier == "quick" else 2500} seeded; logics {ms}; options {list(options)}')
     import random
     for c, sig in circuit_cases(tier, seed):
@@ -222,6 +255,22 @@ def logic_part(pid, ms, tier, seed, with_cycles=False, options=({},)):
                                 evaln.ARITY_BY_HIGHEST_PIN = False
                         b.violation(k2, f'LogicSim.cycle({cyc}) on {sig}: {mism[0]}', 'bounded.logic_drv:run_case', a2,
                                     function='kyupy.logic_sim.LogicSim.cycle')
+        # the same circuit after it has been observed and then edited in place (counts of nodes / lines / ports unchanged)
+        if sig[0] == 'random':
+            rng = random.Random(sseed((seed, str(sig), 'edit')) & 0xffffffff)
+            c2 = G.build(desc)
+            hist = edit_history(rng, c2)
+            if hist is not None:
+                apply_history(c2, hist)
+                m, opts = ms[0], options[-1]
+                if len(evaln.s_nodes(c2)) > 0:
+                    stim = stimulus(rng, c2, m, rng.choice([1, 3, 8, 9]))
+                    mism = compare(c2, m, stim, opts)
+                    b.case(('edited', desc['nodes'], desc['lines'], desc['io'], tuple(hist), m), True, sample={'circuit': str(sig), 'history': [list(h) for h in hist], 'm': m})
+                    if mism and not has_arity_gap(c2):
+                        b.violation(f'bounded:{pid}:m={m}:edited-after-observation', f'LogicSim(m={m}, {opts}) on {sig} observed, then edited in place by {hist}: {mism[0]}',
+                                    'bounded.logic_drv:run_case', {'desc': desc, 'history': [list(h) for h in hist], 'm': m, 'stim': stim.tolist(), 'opts': opts},
+                                    function='kyupy.logic_sim.LogicSim')
         if tier == 'quick' or True:
             try:
                 from kyupy.logic_sim import LogicSim
